@@ -156,4 +156,35 @@ def run : Leader → List LEv → Option Leader
 def LeaderGenerable (log : List Entry) : Prop :=
   ∃ evs, (run {} evs).map (·.log) = some log
 
+/-! ### what the client is told (`applyLog`)
+
+`applyLog` proposes the operation (one log entry, or several when the encoded `LogData` exceeds
+`raftchunking.ChunkSize`) and waits for the leader's own FSM to apply it. The FSM's answer for the final entry of a
+chunked operation arrives wrapped (`raftchunking.ChunkingSuccess{Response}`); `applyLog` removes the wrapper FIRST and
+only then looks for the transaction-error sentinel entry. -/
+
+inductive FsmAnswer where
+  | direct (v : Verdict)    -- one log entry
+  | wrapped (v : Verdict)   -- final entry of a chunked operation
+  deriving DecidableEq, Repr
+
+/-- the verdict the leader's FSM reached -/
+def FsmAnswer.verdict : FsmAnswer → Verdict
+  | .direct v => v
+  | .wrapped v => v
+
+/-- what `applyLog` reports to the client (`conflict` = `ErrTransactionCommitFailure`, otherwise nil) -/
+def reported (a : FsmAnswer) : Verdict :=
+  match a with
+  | .direct v => v
+  | .wrapped v => v      -- unwrap, then inspect
+
+/-- NOT the code (seeded change C09-3): the sentinel is looked for before the wrapper is removed — the type assertion
+fails on a wrapped answer and nothing inspects it afterwards -/
+def reportedBeforeUnwrap (a : FsmAnswer) : Verdict :=
+  match a with
+  | .direct v => v
+  | .wrapped .conflict => .commit
+  | .wrapped v => v
+
 end Obao.RaftLeader
